@@ -218,12 +218,16 @@ def first_tag(path, tag, k=1, skip=0):
     return out
 
 
-def tlc_generate(module, cfg, name, workers=12, timeout=3600, heap="12g"):
-    """TLC generation run (behaviours depend only on the specification) cached under work/gen/<sha256>."""
+def tlc_generate(module, cfg, name, workers=12, timeout=3600, heap="12g", env=None):
+    """TLC generation run (behaviours depend only on the specification) cached under work/gen/<sha256>.
+    `env`: files handed to the specification through IOEnv; their contents are part of the cache key."""
     h = hashlib.sha256()
     for m in spec_closure(module):
         h.update(open(find_module(m), "rb").read())
     h.update(cfg.encode())
+    for k in sorted(env or {}):
+        h.update(k.encode())
+        h.update(open(env[k], "rb").read() if os.path.exists(env[k]) else env[k].encode())
     key = h.hexdigest()[:24]
     d = os.path.join(GENCACHE, name + "-" + key)
     out = os.path.join(d, "out.txt")
@@ -237,7 +241,7 @@ def tlc_generate(module, cfg, name, workers=12, timeout=3600, heap="12g"):
     tmp = d + ".tmp%d" % os.getpid()
     shutil.rmtree(tmp, ignore_errors=True)
     os.makedirs(tmp)
-    st = tlc(module, cfg, os.path.join(tmp, "out.txt"), workers=workers, timeout=timeout, heap=heap)
+    st = tlc(module, cfg, os.path.join(tmp, "out.txt"), workers=workers, timeout=timeout, heap=heap, env=env)
     st["cached"] = False
     if st["violated"] or not st["completed"]:
         # a generation run whose invariants fail is a verdict about the specification itself
